@@ -20,3 +20,7 @@ package rpcutil
 //@ func RPCDiscardReplies
 //@   opts trusted
 //@   modifies nothing
+//@ func CopyPinInfoToIfaces
+//@   opts trusted
+//@   ensures len(res) == len(in)
+//@   modifies nothing
